@@ -180,8 +180,9 @@ def main():
         assumptions=list(getattr(mod, "ASSUMPTIONS", [])),
         wall_s=round(wall, 2), violations=nviol,
     )
-    os.makedirs(os.path.join(engine.VERIF, "evidence"), exist_ok=True)
-    evpath = os.path.join(engine.VERIF, "evidence", "%s.json" % prop)
+    evdir = os.environ.get("VERIF_EVIDENCE_DIR") or os.path.join(engine.VERIF, "evidence")
+    os.makedirs(evdir, exist_ok=True)
+    evpath = os.path.join(evdir, "%s.json" % prop)
     if not a.only:
         with open(evpath, "w") as f:
             json.dump(ev, f, indent=1, sort_keys=True)
